@@ -9,7 +9,7 @@ M = 2 ** 256
 def spellings(c):
     n = max(1, (c.bit_length() + 7) // 8)
     out = [("PUSH %x" % c, c), ("PUSH%d 0x%x" % (n, c), c), ("PUSH%d %d" % (n, c), c), ("PUSH%d 0x%s%x" % (min(32, n + 1), "00", c), c),
-           ("PUSH 0%x" % c, c), ("PUSH32 0x%064x" % c, c), ("PUSH %X" % c, c)]
+           ("PUSH 0%x" % c, c), ("PUSH32 0x%064x" % c, c), ("PUSH %X" % c, c), ("PUSH%d 0%d" % (n, c), c), ("PUSH%d 000%d" % (min(32, n + 2), c), c)]
     return out
 
 
